@@ -60,6 +60,8 @@ Judge1(cat, pre, e) ==
              sniff |-> SniffOK(pre, e.hooks),
              wrote |-> WroteOK(pre, cmd, cat, e.hooks),
              capacity |-> CapacityRespected(pre, cmd, post, F),
+             \* C15: every file stored takes ONE directory slot - a disk that was written holds as many entries as before plus the new files
+             oneslot |-> (post # pre /\ post.kind = "dsk") => Len(post.files) = (IF pre.kind = "dsk" THEN Len(pre.files) ELSE 0) + Len(cmd.new),
              newpath |-> NewPathHoldsNew(pre, cmd, post),
              readonly |-> ReadOnly(pre, cmd, post),
              listed |-> (cmd.sw = "list" /\ pre.kind \in {"cas", "dsk"}) =>
